@@ -101,7 +101,9 @@ Definition x_C20conc_run (c : val) : val := enc_cobs (conc_model (as_nat (nthv 0
 Definition x_C20conc_ok (v : val) : val :=
   if (length (as_list (nthv 1 v)) =? 8)%nat then vbool (ok_conc (dec_cobs (nthv 1 v))) else VI 0.
 
-(* overlapping pulls with early consumers: case = (tracks first attach1 attach2 end2first kind1 kind2 keepalive);
+(* overlapping pulls with consumers: case = (tracks first attach1 attach2 end2first kind1 kind2 keepalive);
+   attach1 = 0 none, 1 before the second registration, 2 between its swap and its look at the consumer count
+   (both early), 3 right after stream 1's status became "replaced", 4 after the second registration (both late);
    observation = three points, each (closed1 closed2 cc1 cc2 registered conns counter goroutines) *)
 From V Require C20Replaced.
 Definition enc_pobs (o : C20Replaced.pobs) : val :=
@@ -115,9 +117,15 @@ Definition dec_pobs (v : val) : C20Replaced.pobs :=
      C20Replaced.po_reg := as_int (nthv 4 v);
      C20Replaced.po_running :=
        if (a =? as_int (nthv 6 v)) && (a =? as_int (nthv 7 v)) && (length (as_list v) =? 8)%nat then a else -1 |}.
+Definition dec_when (v : val) : C20Replaced.when :=
+  match as_int v with
+  | 1 | 2 => C20Replaced.WEarly
+  | 3 | 4 => C20Replaced.WLate
+  | _ => C20Replaced.WNone
+  end.
 Definition x_C20repl_run (c : val) : val :=
-  vlist enc_pobs (C20Replaced.repl_model (as_bool (nthv 2 c)) (as_bool (nthv 3 c)) (as_bool (nthv 4 c))).
+  vlist enc_pobs (C20Replaced.repl_model (dec_when (nthv 2 c)) (as_bool (nthv 3 c)) (as_bool (nthv 4 c))).
 Definition x_C20repl_ok (v : val) : val :=
   let c := nthv 0 v in
-  vbool (C20Replaced.ok_repl (as_bool (nthv 2 c)) (as_bool (nthv 3 c)) (as_bool (nthv 4 c))
+  vbool (C20Replaced.ok_repl (C20Replaced.attached (dec_when (nthv 2 c))) (as_bool (nthv 3 c)) (as_bool (nthv 4 c))
            (map dec_pobs (as_list (nthv 1 v)))).
